@@ -23,7 +23,8 @@ from itertools import groupby
 
 from path import Path
 
-from .enums import FileState, Need, ReturnCode, StepState
+from .enums import TARGET_FORBIDDEN_STATES, FileState, Need, ReturnCode, StepState
+from .file import File
 from .exceptions import HashError
 from .hash import FileHash
 from .pending import PendingSummary, analyze_pending
@@ -233,6 +234,16 @@ async def _report_missing_targets(workflow: Workflow, reporter: ReporterClient) 
         missing_targets = sorted(
             target for target in workflow.targets if not workflow.is_regular_output(target)
         )
+        # A target that ended up as a static file or a volatile output is not merely missing,
+        # it is invalid. This is normally rejected at startup or when the file is declared,
+        # but neither check runs when the declaring plan is skipped after a pending creator
+        # made the startup check stand back.
+        invalid_targets = []
+        for target in missing_targets:
+            file = workflow.find_attached(File, target)
+            if file is not None and file.get_state() in TARGET_FORBIDDEN_STATES:
+                invalid_targets.append(target)
+        missing_targets = [target for target in missing_targets if target not in invalid_targets]
         # Directory targets that matched zero regular outputs.
         # This check is weaker than the exact-target one above by design (best-effort semantics).
         # See `Workflow.has_regular_output_under`.
@@ -242,6 +253,13 @@ async def _report_missing_targets(workflow: Workflow, reporter: ReporterClient) 
             if not workflow.has_regular_output_under(target_dir)
         )
     returncode = ReturnCode(0)
+    if len(invalid_targets) > 0:
+        await reporter(
+            "ERROR",
+            "Invalid build target: A build target cannot be a static file or a volatile output: "
+            + ", ".join(invalid_targets),
+        )
+        returncode |= ReturnCode.FAILED
     if len(missing_targets) > 0:
         await reporter(
             "WARNING",
